@@ -1152,8 +1152,8 @@ def _grid_sampler(eng, func, args, kwargs, out, pre):
                     eng.gs_lemmas["collapsed"] += 1
             if not collapsed:
                 for d in range(nd):
-                    eng.branch(tm.le(tm.const(cell[d]), cidx[d]), True)
-                    eng.branch(tm.lt(cidx[d], tm.const(cell[d] + 1)), True)
+                    eng.branch(tm.le(tm.const(cell[d]), cidx[d]), True, kind="cell")
+                    eng.branch(tm.lt(cidx[d], tm.const(cell[d] + 1)), True, kind="cell")
                 for c in range(C):
                     res[(n, c) + opos] = poly(cell, c)
                 eng.gs_lemmas["witness_cell"] += 1
@@ -1183,8 +1183,8 @@ def _grid_sampler_nearest(eng, func, args, kwargs, out, pre):
                 w = eng.evalf(ci)
                 k = int(round(w))  # python round = half-to-even like nearbyint
                 # witness cell: k - 1/2 < ci < k + 1/2 (ties excluded: the claim does not cover them)
-                eng.branch(tm.lt(tm.sub(tm.const(k), half), ci), True)
-                eng.branch(tm.lt(ci, tm.add(tm.const(k), half)), True)
+                eng.branch(tm.lt(tm.sub(tm.const(k), half), ci), True, kind="cell")
+                eng.branch(tm.lt(ci, tm.add(tm.const(k), half)), True, kind="cell")
                 if not (0 <= k < sizes[d]):
                     inside = False
                 idx.append(k)
@@ -1230,7 +1230,10 @@ def allclose_term(a: np.ndarray, b: np.ndarray, rtol, atol) -> T:
 def _allclose(eng, func, args, kwargs, out, pre):
     rtol = kwargs.get("rtol", args[2] if len(args) > 2 else 1e-5)
     atol = kwargs.get("atol", args[3] if len(args) > 3 else 1e-8)
-    eng.branch(allclose_term(obj(pre.a(0)), obj(pre.a(1)), rtol, atol), bool(out))
+    a, b = obj(pre.a(0)), obj(pre.a(1))
+    shape = np.broadcast_shapes(a.shape, b.shape)
+    strong = tm.and_(*[_eqf(x, y) for x, y in zip(np.broadcast_to(a, shape).reshape(-1), np.broadcast_to(b, shape).reshape(-1))])
+    eng.branch(allclose_term(a, b, rtol, atol), bool(out), strong=strong)
 
 
 @handler("isclose")
